@@ -10,7 +10,9 @@ C06 — Result completeness: every reported sample is written once, well-formed,
       `runAsync` (`Model.C06Engine`); (vi) a sink that starts to reject writes (`Model.C06SinkFail`);
 (vii) the error the encoder aggregator ends with when several faults coincide (`Model.C06ErrJoin`; `errutil.Join`
       and the deferred joins of `Run` regenerated); (viii) samples lent to the aggregator and recycled by their
-      owner (`Model.C06Borrow`).
+      owner (`Model.C06Borrow`); (ix, round 4) `startInstances` returns the number of goroutines it started
+      (`Model.C06Start`), `instancePool.Run`'s three ways out and the `Engine.wait` counter (`Model.C06PoolRun`), the
+      helpers every sample and byte goes through, option tables and plugin registration (regenerated).
 The tie of the models to the running code is the correspondence harness (harness/cmd/c06).
 -/
 import Pandora.Bridge.C06Phout
@@ -25,6 +27,8 @@ import Pandora.Proofs.C06SinkFail
 import Pandora.Bridge.C06ErrJoin
 import Pandora.Proofs.C06ErrJoin
 import Pandora.Proofs.C06Borrow
+import Pandora.Proofs.C06Start
+import Pandora.Proofs.C06PoolRun
 
 namespace Pandora.Props.C06
 open Pandora.Model.Phout Pandora.Proofs.C06
@@ -1076,5 +1080,217 @@ theorem C06_borrowed_early_return_counterexample :
   simp at this
 
 end Borrow
+
+/-! ## (ix) round 4: instance start, `Engine.wait`, helpers, options -/
+
+section Start
+open Pandora.Model.C06Start Pandora.Proofs.C06Start
+
+/-- **`startInstances` returns the number of instance goroutines it started** — whatever `waiter.Wait` and
+`newInstance` return and whenever: `started` is the number of `go` statements executed, at most one ahead of it in
+between (after the first `started++`, before the first `go`) and EQUAL to it on every return path — the first wait
+fails, the first instance cannot be built, the start context ends after any number of instances. Each of those
+goroutines sends exactly one result on `runRes` (`Bridge.AggQ.engineStartInstances_eq`, `engineRunNewInstance_eq`).
+So what the pool's transition system (`Model.C06Pool`) sees of it is `.launch` per goroutine and `.startDone` at the
+return, and the number the await loop stores at `.awaitStart` as `startedInstances` is that count: the reading
+behind `C06_pool_cancel_after_reports` (`awaitedInstances ≥ startedInstances` ⇒ no instance is running). -/
+theorem C06_start_count_exact (trace : List SEv) :
+    let st := run {} {} trace
+    let pst := Pandora.Model.C06Pool.run (Pandora.Model.C06Pool.init Gen.AggQ.engineResultsToWait) (poolTrace {} {} trace)
+    st.launched ≤ st.started ∧ st.started ≤ st.launched + 1 ∧
+    (st.pc = .returned → st.started = st.launched) ∧
+    pst.launched = st.launched ∧ pst.running = st.launched ∧ (pst.startSent = true ↔ st.pc = .returned) ∧
+    (st.pc = .returned →
+      (Pandora.Model.C06Pool.step pst .awaitStart).startedInstances = (st.started : Int)) := by
+  intro st pst
+  have hs : SInv st := sinv_run trace sinv_init
+  have hr : Rel st pst := rel_run {} trace (rel_init _)
+  have hk := keep_run (poolTrace {} {} trace) (Pandora.Model.C06Pool.init Gen.AggQ.engineResultsToWait)
+    (poolTrace_only {} trace {})
+  obtain ⟨h1, _⟩ := hs
+  obtain ⟨r1, r2, _, r4⟩ := hr
+  have hret : st.pc = .returned → st.started = st.launched := by
+    intro hp; rw [hp] at h1; simpa using h1
+  refine ⟨?_, ?_, hret, r1, r2, r4, ?_⟩
+  · split at h1 <;> omega
+  · split at h1 <;> omega
+  · intro hp
+    have hsent : pst.startSent = true := r4.2 hp
+    have htw : pst.toWait = 4 := by
+      have := hk.1; simpa [Pandora.Model.C06Pool.init, Bridge.AggQ.results_to_wait] using this
+    have hopen : pst.startResOpen = true := by
+      have := hk.2; simpa [Pandora.Model.C06Pool.init] using this
+    have : (Pandora.Model.C06Pool.step pst .awaitStart).startedInstances = (pst.launched : Int) := by
+      simp only [Pandora.Model.C06Pool.step, htw, hopen, hsent]
+      simp only [Pandora.Model.C06Pool.PSt.check]
+      split <;> simp
+    rw [this, r1, hret hp]
+
+/-- non-vacuity: two instances are started, then the start context ends; and the first instance cannot be built -/
+example :
+    let st := run {} {} [.wait true, .newInstance true, .go, .wait true, .go, .wait false]
+    st.pc = .returned ∧ st.started = 2 ∧ st.launched = 2 ∧ st.err = false := by decide
+
+example :
+    let st := run {} {} [.wait true, .newInstance false, .go, .wait true]
+    st.pc = .returned ∧ st.started = 0 ∧ st.launched = 0 ∧ st.err = true := by decide
+
+/-- counting the first instance BEFORE the check of `newInstance`'s error does not have the property: when the
+first instance cannot be built `startInstances` returns 1 with no goroutine started — the await loop then waits
+for a run result that never comes and never gets to its cancel -/
+theorem C06_start_count_before_check_counterexample :
+    ¬ (∀ trace : List SEv, let st := run { countBeforeCheck := true } {} trace
+        st.pc = .returned → st.started = st.launched) := by
+  intro h
+  have := h [.wait true, .newInstance false] (by decide)
+  revert this; decide
+
+end Start
+
+section PoolRun
+open Pandora.Model.C06PoolRun Pandora.Proofs.C06PoolRun Pandora.Proofs.C06Pool Pandora.Proofs.C06Engine
+
+/-- **`onWaitDone` is called exactly once per pool, on every way out of `instancePool.Run`** — any number of
+pools, every interleaving of warm-up / `runAsync` failures, of the started pools' tasks (each the free-running
+system of `Model.C06Pool`, outside cancels included) and of `Run` leaving through `<-ctx.Done()`: a pool has at
+most one `Done`; it has one exactly when it failed before anything was started, or when its await goroutine is
+over. -/
+theorem C06_poolrun_done_once (trace : List Ev) (j : Nat) :
+    let st := run Cfg.code (init Gen.AggQ.engineResultsToWait) trace
+    (st.pools j).dones ≤ 1 ∧
+    ((st.pools j).dones = 1 ↔
+      (st.pools j).path = .failedEarly ∨ ((st.pools j).path = .started ∧ (st.pools j).p.waitDone = true)) := by
+  intro st
+  have hst : st = run Cfg.code (init 4) trace := by
+    show run Cfg.code (init Gen.AggQ.engineResultsToWait) trace = _
+    rw [Bridge.AggQ.results_to_wait]
+  have inv : RInv (st.pools j) := by rw [hst]; exact rinv_run trace (fun _ => rinv_init) j
+  refine ⟨rinv_dones_le inv, ?_⟩
+  cases hp : (st.pools j).path with
+  | fresh => simp [inv.fresh hp]
+  | failedEarly => simp [inv.early hp]
+  | started =>
+    rw [inv.started hp]
+    cases (st.pools j).p.waitDone <;> simp
+
+/-- **when `Engine.Wait()` can return** (n pools, `wait.Add(1)` each): the counter never goes negative (no
+"negative WaitGroup counter" panic), and when it is back at zero every pool either failed before anything was
+started — its tasks never took a step: no instance, no Report, its aggregator's `Run` was never called — or its
+aggregator has returned and was awaited, its `runRes` is closed, no instance is running and nothing was sent on a
+closed channel. This is `C06_engine_wait_after_aggregators` with the early ways out of `Run` included. -/
+theorem C06_engine_wait_exact (n : Nat) (trace : List Ev) :
+    let st := run Cfg.code (init Gen.AggQ.engineResultsToWait) trace
+    ¬ negativeCounter st n ∧
+    (waitReturns st n → ∀ j, j < n →
+      ((st.pools j).path = .failedEarly ∧ (st.pools j).p = Pandora.Model.C06Pool.init Gen.AggQ.engineResultsToWait) ∨
+      ((st.pools j).path = .started ∧ (st.pools j).p.aggDone = true ∧ (st.pools j).p.aggOpen = false ∧
+        (st.pools j).p.runResOpen = false ∧ (st.pools j).p.running = 0 ∧ (st.pools j).p.sendOnClosed = false)) := by
+  intro st
+  have hst : st = run Cfg.code (init 4) trace := by
+    show run Cfg.code (init Gen.AggQ.engineResultsToWait) trace = _
+    rw [Bridge.AggQ.results_to_wait]
+  have inv : ∀ k, RInv (st.pools k) := by rw [hst]; exact rinv_run trace (fun _ => rinv_init)
+  refine ⟨?_, ?_⟩
+  · have := totalDones_le st inv n
+    unfold negativeCounter; omega
+  · intro hw j hj
+    have hd := totalDones_full st inv n hw j hj
+    have ij := inv j
+    cases hp : (st.pools j).path with
+    | fresh => have := ij.fresh hp; omega
+    | failedEarly =>
+      left
+      refine ⟨rfl, ?_⟩
+      have := ij.untouched (by rw [hp]; decide)
+      rw [this, Bridge.AggQ.results_to_wait]
+    | started =>
+      right
+      have h1 := ij.started hp
+      have hwd : (st.pools j).p.waitDone = true := by
+        cases h : (st.pools j).p.waitDone with
+        | true => rfl
+        | false => rw [h] at h1; simp at h1; omega
+      obtain ⟨a, b, c, d, _⟩ := wd_all ij.pinv hwd
+      exact ⟨rfl, a, b, c, d, ij.pinv.noSend⟩
+
+/-- non-vacuity: three pools — pool 0's warm-up fails, pool 1 runs to its end, pool 2 is cancelled from outside
+while an instance is running and winds down: `Wait` can return, both started aggregators have returned -/
+example :
+    let tasks : Nat → List Ev := fun j =>
+      ([.launch, .startDone, .report 0, .extCancel, .finish, .awaitStart, .awaitInst, .aggReturn, .awaitAgg, .provReturn,
+        .awaitProv, .waitDone] : List Pandora.Model.C06Pool.PEv).map (Ev.pool j)
+    let st := run Cfg.code (init 4) ([.warmFail 0, .asyncOk 1, .asyncOk 2, .ctxReturn 2] ++ tasks 2 ++ tasks 1)
+    waitReturns st 3 ∧ (st.pools 0).path = .failedEarly ∧ (st.pools 1).p.aggDone = true ∧ (st.pools 2).p.aggDone = true := by
+  decide
+
+/-- a `Run` that calls `onWaitDone` also when it leaves through `<-ctx.Done()` does not have the property: with one
+pool `Wait` can return while the aggregator is still running (what is queued is lost when the process exits), and
+when the await goroutine is over as well the counter goes negative -/
+theorem C06_poolrun_done_on_ctx_counterexample :
+    let cfg : Cfg := { Cfg.code with doneOnCtxDone := true }
+    let st := run cfg (init 4) [.asyncOk 0, .ctxReturn 0]
+    (waitReturns st 1 ∧ (st.pools 0).p.aggDone = false) ∧
+    negativeCounter (run cfg st (([.startDone, .awaitStart, .aggReturn, .awaitAgg, .provReturn, .awaitProv, .waitDone] :
+      List Pandora.Model.C06Pool.PEv).map (Ev.pool 0))) 1 := by decide
+
+/-- a `Run` that forgets `onWaitDone` when `runAsync` fails: whatever happens afterwards `Engine.Wait` never
+returns (the caller is left with its own timeout) -/
+theorem C06_poolrun_forgotten_done_counterexample (n j : Nat) (hj : j < n) (trace : List Ev) :
+    let cfg : Cfg := { Cfg.code with doneOnAsyncFail := false }
+    ¬ waitReturns (run cfg (step cfg (init 4) (.asyncFail j)) trace) n ∨
+    ∃ k, 1 < ((run cfg (step cfg (init 4) (.asyncFail j)) trace).pools k).dones := by
+  intro cfg
+  by_cases hle : ∀ k, ((run cfg (step cfg (init 4) (.asyncFail j)) trace).pools k).dones ≤ 1
+  · left
+    have h0 : ((step cfg (init 4) (.asyncFail j)).pools j).path = .failedEarly ∧
+        ((step cfg (init 4) (.asyncFail j)).pools j).dones = 0 := by
+      simp [step, init, Proofs.C06PoolRun.setPool_same, cfg, Cfg.code, done1]
+    have := forgotten_run cfg trace j h0
+    have := totalDones_lt _ n j hj this hle
+    unfold waitReturns; omega
+  · right
+    simp only [Nat.not_le, not_forall] at hle
+    exact hle
+
+end PoolRun
+
+section Round4Shape
+open Pandora.Gen.AggQ
+
+/-- **the helpers every sample and every byte goes through, the pool's start-up path, options and registration
+are the ones the models and the harness were written from** (regenerated from /repo on every run): phout's wrapper
+makes one synchronous `Report` of the wrapped aggregator; the callback writer between the JSON encoder and the sink
+passes bytes and result through; a borrowed sample is returned once; `IsCtxError`; `buildNewInstanceSchedule` and
+its on-finish callback, which gets `instanceStartCtx` / `instanceStartCancel` (cancels the instance START only:
+`C06_engine_contexts`); `warmUpGun`, `newInstance`, `newPool`; a fresh `Reporter` per encoder aggregator; the option
+names and `validate` tags of both aggregators and the file sink; what `core/import` registers as `phout`,
+`jsonlines`, `json`, `file`; the writers' buffer size is positive whatever `buffer-size` says. -/
+theorem C06_source_shape_round4 :
+    wrapReport = Bridge.AggQ.wrapReportExpected ∧ wrapAggregator = Bridge.AggQ.wrapAggregatorExpected ∧
+    callbackWriter = Bridge.AggQ.callbackWriterExpected ∧ returnIfBorrowed = Bridge.AggQ.returnIfBorrowedExpected ∧
+    bufferSizeOrDefault = Bridge.AggQ.bufferSizeOrDefaultExpected ∧ isCtxError = Bridge.AggQ.isCtxErrorExpected ∧
+    engineBuildSchedule = Bridge.AggQ.engineBuildScheduleExpected ∧
+    engineScheduleFinish = Bridge.AggQ.engineScheduleFinishExpected ∧
+    engineBuildScheduleArgs = [engineHandleInstanceStartCtx, engineHandleInstanceStartCancel] ∧
+    engineWarmUpGun = Bridge.AggQ.engineWarmUpGunExpected ∧ engineNewInstance = Bridge.AggQ.engineNewInstanceExpected ∧
+    engineNewAwaitRunHandle = Bridge.AggQ.engineNewAwaitRunHandleExpected ∧
+    engineNewPool = Bridge.AggQ.engineNewPoolExpected ∧
+    newEncoderAggregator = Bridge.AggQ.newEncoderAggregatorExpected ∧
+    Bridge.AggQ.optionOf phoutConfigFields "ID" = some ("id", "") ∧
+    Bridge.AggQ.optionOf phoutConfigFields "SampleQueueSize" = some ("sample-queue-size", "min=0") ∧
+    Bridge.AggQ.optionOf jsonlinesConfigFields "EncoderAggregatorConfig.ReporterConfig.SampleQueueSize" =
+      some ("sample-queue-size", "min=1") ∧
+    (Bridge.AggQ.registered "Aggregator" "phout").map (·.2) = some "netsample.DefaultPhoutConfig" ∧
+    (Bridge.AggQ.registered "Aggregator" "jsonlines").map (·.1) = some "aggregator.NewJSONLinesAggregator" ∧
+    (∀ n, 0 < Bridge.AggQ.bufSize n) :=
+  ⟨Bridge.AggQ.wrapReport_eq, Bridge.AggQ.wrapAggregator_eq, Bridge.AggQ.callbackWriter_eq,
+   Bridge.AggQ.returnIfBorrowed_eq, Bridge.AggQ.bufferSizeOrDefault_eq, Bridge.AggQ.isCtxError_eq,
+   Bridge.AggQ.engineBuildSchedule_eq, Bridge.AggQ.engineScheduleFinish_eq, Bridge.AggQ.schedule_finish_args,
+   Bridge.AggQ.engineWarmUpGun_eq, Bridge.AggQ.engineNewInstance_eq, Bridge.AggQ.engineNewAwaitRunHandle_eq,
+   Bridge.AggQ.engineNewPool_eq, Bridge.AggQ.newEncoderAggregator_eq, Bridge.AggQ.options.2.1, Bridge.AggQ.options.1,
+   Bridge.AggQ.options.2.2.2.2.1, by rw [Bridge.AggQ.registrations.1], by rw [Bridge.AggQ.registrations.2.1],
+   fun n => (Bridge.AggQ.bufSize_ok n).1⟩
+
+end Round4Shape
 
 end Pandora.Props.C06
